@@ -14,7 +14,9 @@ package main
 // Probes (predicates on the real code): galEl_add, galEl_mod_slots, modInv_spec, dlog_galEl,
 //   nttIndex_perm, keys_sufficient, sum_spec, ckks_round_margin, adv_has_no_extra;
 //   keylevel_{plain,hoisted,lazy,scheme,hoisted_pw2} (c11_keylevels.go: Galois keys at every (LevelQ, LevelP), base-2 variants),
-//   metadata_propagated, metadata_value (c11_meta.go: out-of-place into receivers with different metadata).
+//   metadata_propagated, metadata_value (c11_meta.go: out-of-place into receivers with different metadata);
+//   keys_sufficient / sum_spec with labels <operation>-<accessor> (c11_accessors.go: every advertised-keys accessor
+//   against every operation it serves, keys from that accessor only).
 
 import (
 	"fmt"
@@ -123,6 +125,7 @@ type c11Ctx struct {
 
 	maxRoundErr float64
 	noPRuns     int
+	label       string // probe label overriding the tie op name (c11_accessors.go)
 }
 
 func (x *c11Ctx) hp() string {
@@ -435,6 +438,7 @@ func genC11(c *Ctx) {
 	c11Evaluators(c)
 	c11KeyLevels(c)
 	c11Meta(c)
+	c11AccessorLarge(c)
 }
 
 func c11SpecialKs(c *Ctx, slots int, nthRoot uint64) []int {
@@ -627,6 +631,10 @@ func (x *c11Ctx) run(c *Ctx, opName, args string, adv []uint64, v []int64, want 
 	ct := x.encrypt(v)
 	out := x.newCt()
 	status := c11TryErr(func() error { return op(ev, add, ct, out, evk) })
+	tieOp := opName
+	if x.label != "" {
+		opName = x.label // probes are reported under the accessor/operation pair, the tie line keeps the model op
+	}
 	c.Count("run:" + x.tag() + ":" + opName)
 
 	det := ""
@@ -639,7 +647,7 @@ func (x *c11Ctx) run(c *Ctx, opName, args string, adv []uint64, v []int64, want 
 	if status == "" {
 		got = x.decrypt(out)
 	}
-	name := opName
+	name := tieOp
 	line := fmt.Sprintf("%s %s %s", name, args, c11I64Vec(v))
 	if !valueTie {
 		line = fmt.Sprintf("%s-reqs %s %s", name, args, c11I64Vec(v))
@@ -847,7 +855,9 @@ func c11OneCtx(c *Ctx, x *c11Ctx) {
 					return x.ckksEv.WithKey(evk).InnerSum(ct, b, n, out)
 				})
 		}
+		c11AccessorMatrix(c, x, base, b, n)
 	}
+	c11AccessorOther(c, x)
 
 	// ---- rejected / degenerate arguments
 	for _, bn := range [][2]int{{0, 3}, {3, 0}, {0, 0}, {1, 1}, {x.cols, 1}} {
